@@ -566,15 +566,15 @@ func (f Slice) locate(pp Expr, data any, rest Expr, max int) (locs []Expr) {
 		switch rt.Kind() {
 		case reflect.Slice, reflect.Array:
 			start, end, step := f.startEndStep(rd.Len())
+			if step == 0 {
+				return
+			}
 			if 0 < step {
 				if len(rest) == 0 { // last one
 					for i := start; i < end; i += step {
 						rv := rd.Index(i)
 						if rv.CanInterface() {
 							locs = locateAppendFrag(locs, pp, Nth(i))
-							if 0 < max && max <= len(locs) {
-								break
-							}
 							if 0 < max && max <= len(locs) {
 								break
 							}
@@ -599,9 +599,6 @@ func (f Slice) locate(pp Expr, data any, rest Expr, max int) (locs []Expr) {
 						rv := rd.Index(i)
 						if rv.CanInterface() {
 							locs = locateAppendFrag(locs, pp, Nth(i))
-							if 0 < max && max <= len(locs) {
-								break
-							}
 							if 0 < max && max <= len(locs) {
 								break
 							}
